@@ -5,6 +5,11 @@ import DustVerif.Driver.Wire
 import DustVerif.Driver.Tree
 import DustVerif.Driver.GenIdl
 import DustVerif.Driver.Plist
+import DustVerif.Driver.Listen
+import DustVerif.Driver.Worker
+import DustVerif.Driver.Deadline
+import DustVerif.Driver.MatchSet
+import DustVerif.Driver.Spdp
 open DustVerif.Driver
 
 partial def loopStateless (h : IO.FS.Stream) (out : IO.FS.Stream) (f : String → String) : IO Unit := do
@@ -31,5 +36,10 @@ def main (args : List String) : IO UInt32 := do
   | ["tree"] => loopStateful stdin stdout TreeEngine.step TreeEngine.defaultSt; return 0
   | ["gen"] => loopStateless stdin stdout GenEngine.step; return 0
   | ["plist"] => loopStateless stdin stdout PlistEngine.step; return 0
+  | ["listen"] => loopStateful stdin stdout ListenEngine.step {}; return 0
+  | ["worker"] => loopStateful stdin stdout WorkerEngine.step {}; return 0
+  | ["deadline"] => loopStateful stdin stdout DeadlineEngine.step {}; return 0
+  | ["matchset"] => loopStateful stdin stdout MatchSetEngine.step MatchSetEngine.DSt.init; return 0
+  | ["spdp"] => loopStateful stdin stdout SpdpEngine.step SpdpEngine.DSt.init; return 0
   | ["hist"] => loopStateful stdin stdout HistEngine.step HistEngine.defaultSt; return 0
   | _ => IO.eprintln "usage: dustmodel <engine>"; return 2
